@@ -11,6 +11,7 @@ an integer payload and an ordered list of references to other objects.
     commit | abort | sp | rb n | close | open                  transaction / connection level
     commitf rm before|after begin|commit|vote|finish           commit with a failing 2nd resource manager
     commitf store j | commitf vote                             commit with a storage fault (j-th store / vote)
+    commitf pickle k                                           commit while the state of object k cannot be pickled
     ext i v | peek i                                           second connection: commit payload v / read
 
 One observation line per op:  <result> | <state vector>  (failed commit: <result> | <vector after the
@@ -74,7 +75,7 @@ class World:
         import transaction
         from persistent.list import PersistentList
         from persistent.mapping import PersistentMapping
-        from c11_classes import Node, SelfActNode
+        from c11_classes import Node, SelfActNode, PMap, PList
         self.case = case
         self.n = case['n']
         self.storage = make_storage(case['kind'], tmpdir, tag, blobs)
@@ -87,9 +88,9 @@ class World:
         self.objs = [self.conn.root()]
         for i in range(1, self.n):
             if i % 3 == 1:
-                o = PersistentMapping()
+                o = PMap()
             elif i % 3 == 2:
-                o = PersistentList([0])
+                o = PList([0])
             elif i in case.get('selfact', ()):
                 o = SelfActNode()
             else:
@@ -278,6 +279,10 @@ class World:
                 return orig(*a, **kw)
             inst.store = store
             patched.append('store')
+        elif fail and fail[0] == 'pickle':
+            import c11_classes
+            c11_classes.PICKLE_FAIL.add(id(self.objs[int(fail[1])]))
+            patched.append('pickle')
         elif fail and fail[0] == 'vote':
             had = inst.__dict__.get('tpc_vote')
 
@@ -293,6 +298,8 @@ class World:
                 for p in patched:
                     if p == 'store':
                         del inst.store
+                    elif p == 'pickle':
+                        c11_classes.PICKLE_FAIL.clear()
                     else:
                         if p[1] is None:
                             del inst.tpc_vote
@@ -430,6 +437,9 @@ class World:
 
 
 def run_real(case, tmpdir, tag='w', blobs=False):
+    if case.get('family') == 'multidb':
+        import c11_multidb
+        return c11_multidb.run_real(case, tmpdir, tag)
     w = World(case, tmpdir, tag, blobs)
     try:
         out = ['ok | ' + w.vector()]          # observation of the `reset` line
@@ -441,6 +451,8 @@ def run_real(case, tmpdir, tag='w', blobs=False):
 
 
 def driver_lines(case):
+    if case.get('family'):
+        return []       # oracle-only family: not in the Lean model
     return ['reset %d' % case['n']] + list(case['ops'])
 
 
@@ -635,6 +647,9 @@ class Oracle:
                     kinds.add('Injected')
                 elif fail[0] == 'vote' and self.joined:
                     kinds.add('Injected')
+                elif fail[0] == 'pickle' and self.joined and int(fail[1]) in (
+                        self.dirty | {i for i in self.explicit if i not in self.saved} | set(newc)):
+                    kinds.add('Injected')       # the object is pickled by this commit
             if fail and fail[0] == 'rm' and conflict:
                 # which failure is raised first depends on the phase order of the two managers
                 pass
@@ -751,13 +766,17 @@ class Oracle:
         """the failed commit failed while the connection was storing objects: a conflict (raised by
         store) or the injected fault of the j-th store"""
         f = self.lastfail
-        return self.lastkind == 'Conflict' or (self.lastkind == 'Injected' and bool(f) and f[0] == 'store')
+        return self.lastkind == 'Conflict' or (self.lastkind == 'Injected' and bool(f)
+                                               and f[0] in ('store', 'pickle'))
 
 
 def judge(case, real, pid):
     """Run the oracle along the real observations.  Returns (index, signature, what) of the first
     observation the property statement rejects, ('taint', index) when the rest of the program is outside
     the claim, or None."""
+    if case.get('family') == 'multidb':
+        import c11_multidb
+        return c11_multidb.judge(case, real)
     o = Oracle(case['n'], pid)
     try:
         o.lastkind = None
@@ -824,10 +843,12 @@ def gen_case(rng, pid, size, kind):
                 ops.append('commit')
             elif r < 0.79:
                 c = rng.random()
-                if c < 0.6:
+                if c < 0.5:
                     ops.append('commitf ' + rng.choice(RM_FAILS))
-                elif c < 0.9:
+                elif c < 0.7:
                     ops.append('commitf store %d' % rng.choice([0, 0, 1, 1, 2, 3]))
+                elif c < 0.9:
+                    ops.append('commitf pickle %d' % rng.randrange(1, n))
                 else:
                     ops.append('commitf vote')
             elif r < 0.85:
@@ -900,6 +921,31 @@ def gen_scenario(rng, pid, kind):
     rng.shuffle(objs)
     a, b, c = objs[0], objs[1], objs[2]
     val = lambda: rng.randrange(1, 10)
+    if pid == 'C11':
+        # a commit that fails while the state of one object is pickled — the registered container, an
+        # implicitly added object in the middle of the writer's stack, or the last one — then the same
+        # objects are linked again (the "repair" touches no object), committed, and read elsewhere
+        t = rng.randrange(3)
+        if t == 0:
+            ops = ['link 0 %d' % a, 'link %d %d' % (a, b), 'link %d %d' % (b, c)]
+            if rng.random() < 0.5:
+                ops += ['link %d %d' % (a, c)]
+            ops += ['commitf pickle %d' % rng.choice([a, b, c]), 'link 0 %d' % a, 'commit']
+        elif t == 1:
+            ops = ['link 0 %d' % a, 'commit', 'mod %d %d' % (a, val()), 'link %d %d' % (a, b),
+                   'link %d %d' % (b, c), 'mod 0 %d' % val(),
+                   'commitf pickle %d' % rng.choice([a, b, c]),
+                   'link %d %d' % (a, b), 'mod 0 %d' % val(), 'commit']
+        else:
+            ops = ['add %d' % a, 'link %d %d' % (a, b), 'link 0 %d' % c,
+                   'commitf pickle %d' % rng.choice([a, b, c]),
+                   rng.choice(['add %d' % a, 'link 0 %d' % a]), 'link 0 %d' % c, 'commit']
+        for _ in range(rng.randrange(3)):
+            pos = rng.randrange(len(ops) + 1)
+            i = rng.randrange(n)
+            ops.insert(pos, rng.choice(['read %d' % i, 'mod %d %d' % (i, val()), 'peek %d' % i]))
+        ops += ['read %d' % i for i in range(n)] + ['commit'] + ['peek %d' % i for i in range(n)]
+        return dict(kind=kind, n=n, ops=ops)
     t = rng.randrange(7)
     if t == 6:      # an object that reloads itself when invalidated (oracle only: not in the Lean model)
         v1, v2 = val(), 10 + val()
@@ -956,6 +1002,8 @@ def gen_scenario(rng, pid, kind):
 
 def nontrivial(case, real, pid):
     """the rule of DESIGN 4.21, measured on the executed trace (through the oracle's bookkeeping)"""
+    if case.get('family'):
+        return False
     o = Oracle(case['n'], pid)
     implicit = failed = False
     rbs, older = 0, False
@@ -994,7 +1042,7 @@ def load_corpus(pid):
             if f.endswith('.json'):
                 with open(os.path.join(d, f)) as fh:
                     c = json.load(fh)
-                out.append({k: c[k] for k in ('kind', 'n', 'ops', 'selfact') if k in c})
+                out.append({k: c[k] for k in ('kind', 'n', 'ops', 'selfact', 'family') if k in c})
     return out
 
 
@@ -1032,18 +1080,25 @@ def run_check(pid, argv=None):
     if ck.replay_path:
         with open(ck.replay_path) as f:
             c = json.load(f)['case']
-        cases = [{k: c[k] for k in ('kind', 'n', 'ops', 'selfact') if k in c}]
+        cases = [{k: c[k] for k in ('kind', 'n', 'ops', 'selfact', 'family') if k in c}]
         ncases = 0
     kinds = KINDS
     for m in range(ncases):
         size = ck.rng.choice([6, 10, 16, 24, 36])
         if pid == 'C11':
             for kind in (kinds if not ck.thorough else [kinds[m % 3]]):
-                cases.append(gen_case(ck.rng, pid, size, kind))
+                if m % 10 == 9:
+                    cases.append(gen_scenario(ck.rng, pid, kind))
+                else:
+                    cases.append(gen_case(ck.rng, pid, size, kind))
         elif m % 5 == 4:
             cases.append(gen_scenario(ck.rng, pid, kinds[(m // 5) % 3]))
         else:
             cases.append(gen_case(ck.rng, pid, size, kinds[m % 3]))
+    if pid == 'C11' and not ck.replay_path:
+        import c11_multidb
+        for m in range(60 if not ck.thorough else 1500):
+            cases.append(c11_multidb.gen(ck.rng, kinds[m % 3]))
     # model: one driver process for everything (several in the thorough tier)
     work = [(c, ck.tmp, pid) for c in cases]
     if ck.thorough and len(cases) > 2000:
@@ -1066,7 +1121,7 @@ def run_check(pid, argv=None):
         for ci, ch in enumerate(chunks):
             pos = 0
             for k, c in enumerate(ch):
-                ln = len(c['ops']) + 1
+                ln = len(driver_lines(c))
                 model_of[ci + k * nchunk] = outs[ci][pos:pos + ln]
                 pos += ln
         models = [model_of[i] for i in range(len(cases))]
@@ -1077,7 +1132,7 @@ def run_check(pid, argv=None):
         out = run_driver('Conn', lines) if lines else []
         models, pos = [], 0
         for c in cases:
-            ln = len(c['ops']) + 1
+            ln = len(driver_lines(c))
             models.append(out[pos:pos + ln])
             pos += ln
         results = [_work(w) for w in work]
@@ -1113,6 +1168,9 @@ def run_check(pid, argv=None):
             if v2 is None or v2[0] == 'taint' or v2[1] != sig:
                 c2, r2, v2 = dict(case, ops=ops[:idx]), real[:idx + 1], verdict
             ck.violation(v2[1], v2[2], dict(c2, real=r2, at=v2[0]))
+        if case.get('family'):
+            ck.count('oracle-only:' + case['family'])
+            cut = 0
         if case.get('selfact'):
             ck.count('oracle-only:self-activating-object')
             cut = 0         # such objects are not in the Lean model: judged by the oracle alone
